@@ -60,3 +60,11 @@ Check unique_sound_exact : forall (fuel : nat) (P : program) (env : list clause)
   sound_half fuel P env q vubs pat = Some true ->
   length tau = length vubs -> Forall ground tau ->
   sat P env (rev (app_ans pat tau)) (q_body q).
+
+Theorem f7q_refuted :
+  f7q_class 50 ContractExamples.P7q (GAtom (ContractExamples.C (ContractExamples.K 0))) = true /\
+  ~ contract ContractExamples.P7q [] (closed_query (GAtom (ContractExamples.C (ContractExamples.K 0)))) ANone.
+Proof. exact ContractExamples.f7q_refuted. Qed.
+Check f7q_refuted :
+  f7q_class 50 ContractExamples.P7q (GAtom (ContractExamples.C (ContractExamples.K 0))) = true /\
+  ~ contract ContractExamples.P7q [] (closed_query (GAtom (ContractExamples.C (ContractExamples.K 0)))) ANone.
